@@ -331,13 +331,16 @@ async fn scenario(a: &ShardArgs, idx: u64) {
             break;
         }
         // ---- submit a task
+        let mut custom_read = false;
+        let _ = sim.custom.take();
         let (req, kind): (UserReq, &str) = match r.below(10) {
             8 => (UserReq::GetFileInfo, "file-info"),
             9 => (UserReq::ReadFile(64), "file-open"),
-            0 | 1 => (
-                UserReq::ReadClasses([true, r.bool(), r.bool(), false]),
-                "read",
-            ),
+            0 | 1 => {
+                let c = [true, r.bool(), r.bool(), false];
+                custom_read = r.chance(1, 3);
+                (if custom_read { UserReq::ReadClassesCustom(c) } else { UserReq::ReadClasses(c) }, "read")
+            }
             2 => (
                 UserReq::Command(
                     false,
@@ -793,7 +796,48 @@ async fn scenario(a: &ShardArgs, idx: u64) {
             _ => out::count("not_completed_without_answer_ok", 1),
         }
         // ---- handler deliveries: exactly the accepted fragments, once, in wire order
-        let items = sim.assocs[0].2.take();
+        // (a READ made with a handler of its own: its fragments go to that handler, all of them, and none to the association's;
+        // unsolicited fragments still go to the association's)
+        let mut items = sim.assocs[0].2.take();
+        if custom_read {
+            let assoc_sol: usize = {
+                let mut n = 0;
+                let mut in_sol = false;
+                for it in &items {
+                    match it {
+                        Item::Begin(rt, _) => in_sol = rt != "Unsolicited",
+                        Item::End(_, _) => {
+                            if in_sol {
+                                n += 1;
+                            }
+                            in_sol = false;
+                        }
+                        _ => {}
+                    }
+                }
+                n
+            };
+            if assoc_sol > 0 {
+                viol("custom_handler_bypassed", kind, format!("{assoc_sol} solicited fragment(s) of a read_with_handler request reached the association's handler"), &hist);
+            }
+            let mut keep: Vec<Item> = vec![];
+            let mut in_unsol = false;
+            for it in items {
+                match &it {
+                    Item::Begin(rt, _) => in_unsol = rt == "Unsolicited",
+                    _ => {}
+                }
+                if in_unsol {
+                    keep.push(it);
+                }
+            }
+            let got_custom = sim.custom.take();
+            if got_custom.iter().any(|i| matches!(i, Item::Begin(_, _))) && assoc_sol == 0 {
+                out::count("custom_handler_deliveries_ok", 1);
+            }
+            keep.extend(got_custom);
+            items = keep;
+        }
         let mut got: Vec<(String, u8, usize)> = vec![];
         let mut cur: Option<(String, u8, usize)> = None;
         for it in items {
